@@ -27,6 +27,9 @@ func defsC20() []*ph.Def {
 					{Name: "color", Kind: ph.Str, Aliases: []string{"colour", "colr"}},
 					{Name: "list", Kind: ph.StrS, Min: 1, Max: 2},
 					{Name: "map", Kind: ph.Map, Min: 1, Max: 2},
+					{Name: "defs", Kind: ph.Map, Min: 1, Max: 1, Var: true, Preset: [][2]string{{"k2", "v2"}, {"k1", "v1"}, {"k3", "v3"}}}, // the caller's map already holds entries
+					{Name: "time", Kind: ph.Int, ArgName: "seconds"},
+					{Name: "timeout", Kind: ph.Str, ArgName: "duration", Suggested: []string{"1s", "1m"}},
 				},
 				ArgCompl: []string{"zarg", "aarg", "marg"},
 				Cmds: []*ph.CmdDef{
@@ -57,9 +60,12 @@ var c20Argvs = [][]string{
 	{"build"}, {"build", "--target", "t"}, {"build", "--arch=a"}, {"build", "--unk"}, {"bu"}, {"b"}, {"zap"}, {"zap", "x1"}, {"help"}, {"help", "build"}, {"help", "zap"}, {"build", "help"},
 	{"--help"}, {"build", "--help"}, {"zap", "--he"}, {"--map", "k=v", "a=b"}, {"--map", "b=1", "--map", "a=2"}, {"--list", "x", "y"}, {"--verify"}, {"--verify=sv"}, {"--alpha=1"}, {"--beta=2", "--gamma"},
 	{"--alpha=1", "--beta=2", "--gamma"}, {"c1"}, {"c1", "--alpha=1"}, {"p", "--unk", "c2"}, {"--", "x"}, {"--ver", "--unk"},
+	{"--defs", "a=b"}, {"--time", "5", "--timeout", "1s"}, {"--tim", "5"},
 }
 
-var c20CompLines = []string{"prog ", "prog -", "prog --", "prog --ver", "prog --verify=", "prog --verify=sv", "prog b", "prog build ", "prog build --", "prog zap ", "prog help ", "prog build help ", "prog --l", "prog a", "prog --map="}
+var c20CompLines = []string{"prog ", "prog -", "prog --", "prog --ver", "prog --verify=", "prog --verify=sv", "prog b", "prog build ", "prog build --", "prog zap ", "prog help ", "prog build help ", "prog --l", "prog a", "prog --map=",
+	// options already given earlier on the line
+	"prog --version --verbose --ver", "prog --time 5 --t", "prog --timeout 1s --time 5 --ti", "prog --level x --l", "prog --verify sv1 --version --ver", "prog --defs a=b --d"}
 
 // c20Observe runs the whole pipeline for one case and renders everything observable.
 func c20Observe(def *ph.Def, argv []string, compLine string) string {
@@ -134,7 +140,7 @@ func init() {
 	register(&Check{
 		ID:        "C20",
 		QuickSecs: 150, ThoroSecs: 1500,
-		Rule: "exploration of hidden nondeterminism: Go's randomised map iteration is replaced (build-time instrumentation of all 22 map ranges of the library) by an explorer-chosen rotation of the sorted key order; for 11 definitions with >= 2 entries in every internal table (options, aliases, commands, suggestions, required options) x 43 argv and 15 COMP_LINE texts provoking several simultaneous diagnostics, " +
+		Rule: "exploration of hidden nondeterminism: Go's randomised map iteration is replaced (build-time instrumentation of all 22 map ranges of the library) by an explorer-chosen rotation of the sorted key order; for 11 definitions with >= 2 entries in every internal table (options, aliases, commands, suggestions, required options) x 46 argv and 21 COMP_LINE texts provoking several simultaneous diagnostics, " +
 			"every execution with <= d non-default rotations is run (bounded-deviation DFS over the range executions) and its complete observation vector (values, remaining, error text, warnings, dispatch result, help text, completion list) must be identical to the default-order run; additionally the same case is run twice with the native map order; " +
 			"states = choice points visited, transitions = range executions, distinct_nontrivial = cases whose execution has at least one order choice point",
 		Assume: []string{"iteration orders are rotations of the sorted key order (every element comes first under some rotation); other permutations are not explored", "definitions and inputs outside the stated lists are not covered"},
